@@ -2,6 +2,7 @@ package extractor
 
 import (
 	"encoding/json"
+	"net/url"
 	"strings"
 
 	"github.com/ImVexed/fasturl"
@@ -90,5 +91,16 @@ func findURLs(data interface{}, links *[]string) {
 
 func isValidURL(str string) bool {
 	u, err := fasturl.ParseURL(str)
-	return err == nil && u.Host != ""
+	if err == nil && u.Host != "" {
+		return true
+	}
+
+	// fasturl rejects some valid URLs (e.g. a "/" in the query string),
+	// give absolute http(s) URLs a second chance with net/url
+	if strings.HasPrefix(str, "http://") || strings.HasPrefix(str, "https://") {
+		nu, nerr := url.Parse(str)
+		return nerr == nil && nu.Host != ""
+	}
+
+	return false
 }
